@@ -427,6 +427,11 @@ fn exec<E: Elem + Clone + Default, N: ArrayLength>(op: Op, cx: Ctx) -> Result<Op
             let (src, log) = ScriptIter::<E>::new(c, h, true, cx.panic_at);
             let out = guarded!(GA::<E, N>::try_boxed_from_iter(src));
             rep.calls = log.borrow().polls;
+            if cx.panic_at.is_none() && cx.fail_at.is_none() && log.borrow().polls > n + 1 {
+                // a conversion that "succeeds exactly when the source length is N" has decided after
+                // N + 1 items; draining the rest (an endless source never ends) is not that
+                return Err(format!("TooManyPolls: the boxed collector pulled {} items from a source of {c} to decide about N = {n}", log.borrow().polls));
+            }
             match out {
                 Some(Ok(a)) => {
                     if c != n {
@@ -884,6 +889,15 @@ fn big_op<N: ArrayLength>(which: &str) -> u64 {
             let c: Box<GA<u64, N>> = a.zip(b, |x, y| x + y);
             checksum(&c)
         }
+        "fold" => {
+            let a = <Box<GA<u64, N>> as GenericSequence<u64>>::generate(|i| i as u64 * 3);
+            let mut i = 0u64;
+            a.fold(0u64, |h, x| {
+                let r = h.wrapping_mul(31).wrapping_add(x ^ i);
+                i += 1;
+                r
+            })
+        }
         "into_vec_roundtrip" => {
             let b = <Box<GA<u64, N>> as GenericSequence<u64>>::generate(|i| i as u64 * 3);
             let v = b.into_vec();
@@ -899,7 +913,7 @@ fn big_op<N: ArrayLength>(which: &str) -> u64 {
 fn expected_big(which: &str, n: usize) -> u64 {
     let f: Box<dyn Fn(usize) -> u64> = match which {
         "default_boxed" => Box::new(|_| 0),
-        "generate" | "from_iter" | "try_boxed_from_iter" | "map" | "zip" | "into_vec_roundtrip" => Box::new(|i| i as u64 * 3),
+        "generate" | "from_iter" | "try_boxed_from_iter" | "map" | "zip" | "fold" | "into_vec_roundtrip" => Box::new(|i| i as u64 * 3),
         "box_arr_ty" => Box::new(|_| 7),
         _ => panic!(),
     };
@@ -942,6 +956,7 @@ fn few_huge_op(which: &str) -> u64 {
             let c: Box<GA<Huge, FewHuge>> = a.zip(b, |x, _y| x);
             sum(&c[..])
         }
+        "fold" => GA::<Huge, FewHuge>::default_boxed().fold(0u64, |h, x| h.wrapping_mul(31).wrapping_add(x.0[0] as u64 + x.0[8191] as u64)),
         "into_vec_roundtrip" => {
             let b = GA::<Huge, FewHuge>::default_boxed();
             let v = b.into_vec();
@@ -967,7 +982,7 @@ fn expected_few_huge() -> u64 {
     (0..48).fold(0u64, |h, _| h.wrapping_mul(31).wrapping_add(0x5A + 0x5A))
 }
 
-const BIG_OPS: &[&str] = &["default_boxed", "generate", "from_iter", "try_boxed_from_iter", "box_arr_ty", "map", "zip", "into_vec_roundtrip"];
+const BIG_OPS: &[&str] = &["default_boxed", "generate", "from_iter", "try_boxed_from_iter", "box_arr_ty", "map", "zip", "fold", "into_vec_roundtrip"];
 
 /// child entry: build a multi-MiB array on a 256 KiB-stack thread
 fn child_bigstack(args: &Args) -> ! {
@@ -1124,7 +1139,7 @@ fn grid<E: Elem + Clone + Default, N: ArrayLength>(st: &mut Stats, args: &Args, 
     }
 }
 
-const C15_KINDS: &[&str] = &["WrongOk", "WrongErr", "ContentMismatch", "LengthMismatch", "BlockMoved", "BlockReleased", "PayloadCopied", "Panic"];
+const C15_KINDS: &[&str] = &["WrongOk", "WrongErr", "ContentMismatch", "LengthMismatch", "BlockMoved", "BlockReleased", "PayloadCopied", "BlockMisdescribed", "TooManyPolls", "Panic"];
 const C16_KINDS: &[&str] = &["ZeroSizeRequest", "ReleaseUnknown", "ReleaseLayoutMismatch", "LeakedBlock", "LogOverflow", "PanicSwallowed", "Panic"];
 
 /// Each property gates only on the verdict kinds its statement speaks about; the
